@@ -71,14 +71,19 @@ pub open spec fn rl(packets: Seq<Packet>, small: Seq<(u64, Bytes)>, small_bytes:
 /// element invariant -- re-establishes the invariant for `steps + 1` and keeps the element invariant.  Only the body's contract (U9) is used.
 pub fn reliable_send_loop_step(message_id: u64, unacked_message: &mut UnackedMessage, resend_time: Duration, channel_id: u8, packet_sequence: &mut u64,
     available_bytes: &mut u64, current_time: Duration, packets: &mut Vec<Packet>, small_messages: &mut Vec<(u64, Bytes)>, small_messages_bytes: &mut usize,
-    Ghost(seq0): Ghost<int>, Ghost(avail0): Ghost<int>, Ghost(steps): Ghost<int>)
+    Ghost(seq0): Ghost<int>, Ghost(avail0): Ghost<int>, Ghost(steps): Ghost<int>, Ghost(m0): Ghost<Map<u64, UnackedMessage>>)
     requires
         old(unacked_message).wf(), old(unacked_message).sent_not_after(current_time), message_id < 0x4000_0000_0000_0000,
         rloop_inv(rl(old(packets)@, old(small_messages)@, *old(small_messages_bytes), *old(packet_sequence), *old(available_bytes)), seq0, avail0, steps),
         0 <= seq0, 0 <= avail0, seq0 + avail0 + steps + 2 <= 0x4000_0000_0000_0000,
         all_from_channel(old(packets)@, channel_id),
+        // the element visited is an entry of the queue as it was at loop entry, of unchanged kind (iteration protocol + the element invariant below)
+        m0.contains_key(message_id), same_kind(*old(unacked_message), m0[message_id]),
+        all_carried_ok(old(packets)@, m0), batch_ids_small(old(small_messages)@, m0),
     ensures
         all_from_channel(final(packets)@, channel_id),                                 // @C03,C11 loop_step.packets_labelled_with_this_channel
+        same_kind(*final(unacked_message), m0[message_id]),                            // @C01,C02,C08 loop_step.kind_kept
+        all_carried_ok(final(packets)@, m0) && batch_ids_small(final(small_messages)@, m0),   // @C01,C02,C08 loop_step.everything_carried_names_a_queued_message_of_its_kind
         final(unacked_message).wf(),                                                   // @C01,C02,C13 loop_step.element_invariant_kept
         final(unacked_message).msg() == old(unacked_message).msg(),                    // @C01,C02,C03 loop_step.bytes_untouched
         final(unacked_message).sent_not_after(current_time),                           // @C15 loop_step.timestamps_not_in_future
@@ -91,6 +96,7 @@ pub fn reliable_send_loop_step(message_id: u64, unacked_message: &mut UnackedMes
         let post = rl(packets@, small_messages@, *small_messages_bytes, *packet_sequence, *available_bytes);
         lemma_rloop_step(pre, post, seq0, avail0, steps, channel_id, message_id, um, current_time, resend_time);
         lemma_rloop_step_channel(pre.packets, post.packets, pre.seq, channel_id, message_id, um, current_time, resend_time, pre.small);
+        lemma_rloop_step_carried(pre.packets, post.packets, pre.small, post.small, pre.seq, channel_id, message_id, um, current_time, resend_time, m0);
     }
 }
 
@@ -107,8 +113,11 @@ pub fn reliable_send_loop_summary(unacked_messages: &mut BTreeMap<u64, UnackedMe
             *old(packet_sequence) as int - old(packets)@.len(), *old(available_bytes) as int, 0),
         *old(packet_sequence) + *old(available_bytes) + old(unacked_messages)@.len() + 2 <= 0x4000_0000_0000_0000,
         all_from_channel(old(packets)@, channel_id),
+        all_carried_ok(old(packets)@, old(unacked_messages)@), batch_ids_small(old(small_messages)@, old(unacked_messages)@),
     ensures
         all_from_channel(final(packets)@, channel_id),
+        all_carried_ok(final(packets)@, old(unacked_messages)@), batch_ids_small(final(small_messages)@, old(unacked_messages)@),
+        forall|id: u64| #[trigger] old(unacked_messages)@.contains_key(id) ==> same_kind(final(unacked_messages)@[id], old(unacked_messages)@[id]),
         final(unacked_messages)@.dom() == old(unacked_messages)@.dom(),
         forall|id: u64| #[trigger] old(unacked_messages)@.contains_key(id) ==> final(unacked_messages)@[id].wf()
             && final(unacked_messages)@[id].msg() == old(unacked_messages)@[id].msg() && final(unacked_messages)@[id].sent_not_after(current_time),
@@ -130,11 +139,13 @@ impl SendChannelReliable {
         proof {
             lemma_rsmall_ok_empty();
             assert(rloop_inv(rl(packets@, small_messages@, small_messages_bytes, *packet_sequence, *available_bytes), seq0, avail0, 0));
+            assert(all_carried_ok(packets@, m0) && batch_ids_small(small_messages@, m0));
         }
 //@before /if !small_messages\.is_empty\(\) \{/
         let ghost pk1 = packets@;
         proof {
             lemma_accounted_same_msgs(m0, self.unacked_messages@);
+            lemma_carried_same_kinds(packets@, small_messages@, m0, self.unacked_messages@);
         }
 //@before /packets\.push\(Packet::SmallReliable \{/ 2
             let ghost flushed = small_messages;
@@ -149,6 +160,8 @@ impl SendChannelReliable {
                 lemma_packets_payload_push(pk1, pkf);
                 assert(pk1.push(pkf) =~= packets@);
                 assert(all_from_channel(packets@, self.channel_id));
+                assert(carried_ok(pkf, self.unacked_messages@));
+                assert(all_carried_ok(packets@, self.unacked_messages@));
             }
 //@endfn
 }
